@@ -343,6 +343,13 @@ package base
 //@   ensures[same-bucket-others] forall e Int :: validEvent(e) && e != event ==> bucketOf(cur).counter[e] == (old(cur.BucketStart) == start ? old(bucketOf(cur).counter[e]) : 0)
 //@   ensures[other-slots] forall i Int :: 0 <= i && i < la.array.length && i != idx && la.array.data[i] != nil ==> la.array.data[i] == old(la.array.data[i]) && la.array.data[i].BucketStart == old(la.array.data[i].BucketStart) && (forall e Int :: validEvent(e) ==> bucketOf(la.array.data[i]).counter[e] == old(bucketOf(la.array.data[i]).counter[e]))
 
+// the array constructor records the geometry it is given (the bucket array itself is built by
+// NewAtomicBucketWrapArray: unsafe pointer arithmetic, not under contract)
+//@ func NewBucketLeapArray(sampleCount, intervalInMs) r
+//@   assumed
+//@   ensures r != nil && fresh(r) && r.data.sampleCount == sampleCount && r.data.intervalInMs == intervalInMs && (sampleCount > 0 ==> r.data.bucketLengthInMs == intervalInMs / sampleCount)
+//@   modifies nothing
+
 // ---- P3: a view can only be constructed over an array it tiles
 //@ func NewSlidingWindowMetric(sampleCount, intervalInMs, real) (m, err)
 //@   props C08
